@@ -48,6 +48,8 @@ class Arr:
     filledwith: object = None  # plain result of x.filled(v): (mask coverage of x, source text of v)
     validM: frozenset = E  # boolean array that is false wherever these inputs are missing (a masked comparison filled with False)
     ascending: bool = False  # a 1-D collection of values known to be in ascending order (sorted in place, or built from a sorted list)
+    freshmask: bool = False  # a boolean array newly computed from masks (logical_or(m1, m2), a layer-axis any()): describes masks, shares no buffer with them
+    ownmask: bool = False  # a MaskedArray by construction (numpy.ma.array(...) and friends), not merely an input assumed to be one
     keeps: object = None  # (op, scalar identity, alias of the population): exactly the cells of that population with `cell <op> scalar` are present here
 
 
@@ -360,10 +362,45 @@ class Interp(object):
 
     # ---------------------------------------------------------------- statements
     def exec_block(self, stmts, fr):
-        for s in stmts:
+        for i, s in enumerate(stmts):
             if fr.env.get("__dead__"):
                 return
+            if isinstance(s, ast.If) and i + 1 < len(stmts) and fr.depth < 40 and self._splits_on_single(s.test, fr) and not fr.env.get("__single__"):
+                # `if len(<input list>) > 1:` - the statements after it are walked once for each outcome, so that what the branch
+                # sets up for several inputs is not blamed on the single-input case (where "the rest" of the list is empty)
+                outs = []
+                for take in (True, False):
+                    f2 = Frame(fr.module, fr.func, fr.cls, _copy_env(fr.env), fr.depth + 1)
+                    f2.returns = fr.returns
+                    self.refine(s.test, take, f2)
+                    self.cond_stack.append((s.test, take, fr))
+                    try:
+                        self.exec_block(s.body if take else s.orelse, f2)
+                    finally:
+                        self.cond_stack.pop()
+                    if not f2.env.get("__dead__"):
+                        self.exec_block(stmts[i + 1:], f2)
+                    if not f2.env.get("__dead__"):
+                        outs.append(f2.env)
+                if not outs:
+                    fr.env["__dead__"] = True
+                else:
+                    merged = self.join_envs(outs)
+                    fr.env.clear()
+                    fr.env.update(merged)
+                return
             self.exec_stmt(s, fr)
+
+    def _splits_on_single(self, test, fr):
+        """the test decides whether an input list holds exactly one element (`len(xs) > 1`, `len(xs) == 1`, ...)"""
+        t = test
+        while isinstance(t, ast.UnaryOp) and isinstance(t.op, ast.Not):
+            t = t.operand
+        if isinstance(t, ast.Compare) and len(t.ops) == 1 and isinstance(t.left, ast.Call) and isinstance(t.left.func, ast.Name) and t.left.func.id == "len" and len(t.left.args) == 1 \
+                and isinstance(t.left.args[0], ast.Name) and isinstance(t.comparators[0], ast.Constant) and (t.comparators[0].value, type(t.ops[0])) in ((1, ast.Gt), (1, ast.Eq), (1, ast.NotEq), (1, ast.LtE), (2, ast.Lt), (2, ast.GtE)):
+            lst = fr.env.get(t.left.args[0].id)
+            return isinstance(lst, Lst) and bool(lst.L) and lst.part == "all" and lst.what in ("arrs", "cmds")
+        return False
 
     def exec_stmt(self, s, fr):
         env = fr.env
@@ -686,6 +723,9 @@ class Interp(object):
             if s.orelse:
                 self.exec_block(s.orelse, fr)
             return
+        rest_lists = [x_ for x_ in ([it] + list(getattr(it, "zipped", ()) or ())) if isinstance(x_, Lst) and x_.L and x_.part == "rest"]
+        if rest_lists and all(x_.L in env.get("__single__", frozenset()) for x_ in rest_lists):
+            return  # the list is known to hold one element on this path: there is nothing after the first
         elem = self.elem_of(it, s.iter, fr)
         before = _copy_env(env)
         self.assign(s.target, elem, fr, s)
@@ -718,6 +758,10 @@ class Interp(object):
                 # an accumulator started from a number: the iterated list is not empty (validated inputs), so after the loop
                 # it is an array; it covers what every iteration adds for the tokens of the iterated list
                 env[name] = replace(a, D=a.D | b.D, Pg=a.Pg | b.Pg, M=a.M & ST)
+            elif isinstance(b, Other) and b.tag == "global" and b.info in ("numpy.ma.nomask", "numpy.ma.core.nomask") and isinstance(a, Arr) and a.isbool:
+                # a mask union started from `nomask` (no missing cells): after the loop over the validated, non-empty list it covers
+                # what every iteration adds for the tokens of the iterated list
+                env[name] = replace(a, M=a.M & ST)
             elif a != b and not isinstance(a, Kw):
                 env[name] = self.join(b, a)
         if s.orelse:
@@ -1435,7 +1479,14 @@ class ArrayInterp(Interp):
             Pg = v.Pg
             return Lst("nums", srcs=("derived",) + tuple(getattr(it, "srcs", ())), elem=Scal(D=D, Pg=Pg, dt=v.dt, rng=v.rng, sym=v.sym if (v.sym or "").startswith("clamped(") else None))
         members = [it] + list(getattr(it, "zipped", ()) or ())
-        if any(isinstance(m_, Lst) and m_.what in ("cmds", "arrs") and m_.L for m_ in members) and (filtered or isinstance(v, Lst)):
+        def _holds_input(v_):
+            if isinstance(v_, Arr):
+                return any(is_input_token(t_) for t_ in v_.alias)
+            if isinstance(v_, Lst) and v_.items:
+                return any(_holds_input(x_) for x_ in v_.items)
+            return False
+
+        if any(isinstance(m_, Lst) and m_.what in ("cmds", "arrs") and m_.L for m_ in members) and (filtered or isinstance(v, Lst)) and _holds_input(v):
             # the input arrays regrouped (pairs with their weights, say) or filtered into a new list: which inputs are left, and in
             # which roles, is not followed from here
             self.unsupported("a comprehension that regroups or filters the input list (%s)" % _src(e)[:60], e, fr)
@@ -2571,7 +2622,7 @@ class ArrayInterp(Interp):
                 D, Pg = A[1].D, A[1].Pg
             masked = ".ma." in qn
             rng0 = A[1].rng if ("full" in qn and len(A) > 1 and isinstance(A[1], Scal) and "_like" not in qn) else (None, None)
-            return Arr(kind="masked" if masked else "plain", alias=S(), shape=shp, dt=dt, dtprov=dtprov, D=D, Pg=Pg, constmask=masked, rng=rng0)
+            return Arr(kind="masked" if masked else "plain", alias=S(), shape=shp, dt=dt, dtprov=dtprov, D=D, Pg=Pg, constmask=masked or dt == B_, rng=rng0, isbool=(dt == B_ and not masked))
         if qn in ("numpy.ma.masked_values", "numpy.ma.masked_equal", "numpy.ma.masked_where", "numpy.ma.masked_object", "numpy.ma.masked_invalid",
                   "numpy.ma.masked_less", "numpy.ma.masked_greater", "numpy.ma.masked_less_equal", "numpy.ma.masked_greater_equal", "numpy.ma.masked_not_equal",
                   "numpy.ma.masked_inside", "numpy.ma.masked_outside"):
@@ -2635,7 +2686,16 @@ class ArrayInterp(Interp):
             if isinstance(x, Arr) or isinstance(y, Arr):
                 r = self.binop(x, y, ast.Add(), e, fr) if isinstance(x, Arr) else self.binop_arr(y, x, ast.Add(), e, fr)
                 if isinstance(out, Arr):
-                    r = replace(r, alias=out.alias)
+                    r = replace(r, alias=out.alias, ownmask=out.ownmask)
+                    outnode = next((k_.value for k_ in e.keywords if k_.arg == "out"), None)
+                    if ".ma." not in qn and isinstance(r, Arr):
+                        # a plain ufunc with out=: the CONTAINER of `out` decides what comes back.  A MaskedArray merges the masks of
+                        # the operands; a plain ndarray (which every data command accepts as input) takes the raw data of a masked
+                        # operand, hidden values included, and no mask at all
+                        if not out.ownmask and any(is_input_token(t_) for t_ in (out.D | out.alias)) and any(isinstance(z_, Arr) and z_.kind == "masked" and z_ is not out and not (z_.alias & out.alias) for z_ in (x, y)):
+                            self.finding("out-container", e, "`%s` writes into `%s`, which is (a copy of) an input as it came: when that input is a plain array the masks of the other operands are dropped and the data hidden under their missing cells enters the result; only a target built as a masked array merges the masks" % (_src(e)[:60], _src(outnode) if outnode is not None else "out"), fr)
+                    if isinstance(outnode, ast.Name) and isinstance(fr.env.get(outnode.id), Arr):
+                        self.rebind(outnode, fr.env[outnode.id], r, fr)
                 return r
             if isinstance(x, Scal) and isinstance(y, Scal):
                 return self.binop(x, y, ast.Add(), e, fr)
@@ -2659,7 +2719,7 @@ class ArrayInterp(Interp):
                 M = (x.M | y.M) if isinstance(op, ast.BitOr) else (x.M & y.M)
                 both_masks = bool(x.isbool and y.isbool)
                 return replace(r, isbool=True, dt=B_, M=M if both_masks else r.M, kind=r.kind if ".ma." in qn and not qn.endswith("mask_or") else ("plain" if both_masks and x.kind != "masked" and y.kind != "masked" else r.kind),
-                               maskof=x.maskof | y.maskof if both_masks else E)
+                               maskof=x.maskof | y.maskof if both_masks else E, freshmask=not qn.endswith("mask_or"))  # (mask_or may hand back one of its operands)
             if isinstance(x, Arr) or isinstance(y, Arr):
                 arr = x if isinstance(x, Arr) else y
                 return replace(arr, isbool=True, dt=B_, alias=S(), M=arr.M if qn.endswith("or") else E)
@@ -3067,6 +3127,12 @@ class ArrayInterp(Interp):
         self.unsupported("call of %s" % qn, e, fr)
 
     def make_masked_array(self, qn, e, A, K, fr):
+        out = self._make_masked_array(qn, e, A, K, fr)
+        if isinstance(out, Arr) and out.kind == "masked":
+            out = replace(out, ownmask=True)
+        return out
+
+    def _make_masked_array(self, qn, e, A, K, fr):
         S = self.S(e)
         a0 = A[0] if A else K.get("data")
         mask = K.get("mask", A[1] if len(A) > 1 and qn != "numpy.ma.asarray" else None)
@@ -3076,6 +3142,8 @@ class ArrayInterp(Interp):
             dt = {"builtins.float": F_, "builtins.int": I_, "builtins.bool": B_}.get(dtv.info, IF_)
         elif isinstance(dtv, Other) and dtv.tag == "str":
             self.finding("dtype-arg", e, "a string %r is passed as dtype" % (dtv.info,), fr)
+        elif isinstance(dtv, Other) and dtv.tag == "dtype" and isinstance(dtv.info, Arr):
+            dt = dtv.info.dt  # dtype=other.dtype / numpy.result_type(...): the element type worked out there
         elif dtv is not None and not (isinstance(dtv, Other) and dtv.tag == "none"):
             dt = IF_
         if isinstance(a0, Arr) and isinstance(mask, Other) and mask.tag == "bool" and mask.info is True:
@@ -3096,7 +3164,7 @@ class ArrayInterp(Interp):
                     self.res.finite_masked.append(a0.alias | a0.dataof)  # every inf / nan cell of the data is missing in the result
                 cov = cov | mask.M
                 const = const and mask.constmask
-                malias = malias | mask.maskof | frozenset(t for t in mask.alias if is_input_token(t))  # A14: the mask argument is not copied
+                malias = malias | (E if mask.freshmask else mask.maskof) | frozenset(t for t in mask.alias if is_input_token(t))  # A14: the mask argument is not copied
                 if mask.shape != a0.shape:
                     shape = "rankdep" if "rankdep" in (mask.shape, a0.shape) else "unknown"
             elif mask is not None and not (isinstance(mask, Other) and mask.tag == "none"):
@@ -3145,6 +3213,8 @@ class ArrayInterp(Interp):
         if not isinstance(r, Arr):
             self.unsupported("reduce step does not produce an array", e, fr)
         r2 = step(r, el)
+        # every step makes a new boolean array and the fold starts from one of its own: the outcome shares no buffer with a mask
+        fresh_fold = isinstance(init, Arr) and not any(is_input_token(t_) for t_ in init.alias | init.maskof) and r.freshmask and (not isinstance(r2, Arr) or r2.freshmask)
         if isinstance(r2, Arr):
             r = self.join(r, r2) if r2 != r else r
             r = replace(r, M=step(first, el).M)
@@ -3155,7 +3225,7 @@ class ArrayInterp(Interp):
         else:
             sole = self.part_elem(replace(seq, part="first")).alias if seq.part == "all" else el.alias
             cover = r.M
-        return replace(r, alias=r.alias | sole, M=cover, rng=(None, None))
+        return replace(r, alias=r.alias | sole, M=cover, rng=(None, None), freshmask=fresh_fold)
 
 
 def analyse_command(idx, decl, fold=None):
